@@ -60,7 +60,8 @@ def case(draw):
     if extra is not None and not any(r.rsplit(".", 1)[0] == extra.rsplit(".", 1)[0] or r == extra for r in state["licenses"]):
         state = dict(state, licenses=state["licenses"] + [extra])
     return {"state": state, "pad": pad, "dup": dup, "concluded": concluded, "person": person, "org": org,
-            "outfile": draw(st.sampled_from([None, None, "out.spdx", "sub dir/bom.spdx"])), "mp": draw(st.integers(0, 4)) == 0,
+            # ('@basename': written elsewhere, under the bare name of a covered file that lives in a sub-directory of the project)
+            "outfile": draw(st.sampled_from([None, None, "out.spdx", "sub dir/bom.spdx", "@basename"])), "mp": draw(st.integers(0, 4)) == 0,
             # where the command is started: in the project root, or somewhere else with --root <absolute path>
             "cwd": draw(st.sampled_from(["root", "root", "outside"]))}
 
@@ -89,6 +90,9 @@ def check(ctx, c):
     root = ctx.fresh_dir()
     try:
         FP.materialise(root, state)
+        if c["outfile"] == "@basename":
+            nested = sorted(f["path"] for f in state["files"] if "/" in f["path"] and not f["unreadable"])
+            c = dict(c, cwd="outside", outfile="@" + nested[0].rsplit("/", 1)[-1]) if nested else dict(c, outfile="out.spdx")
         if c["outfile"] and "/" in c["outfile"]:
             (root / c["outfile"]).parent.mkdir(parents=True, exist_ok=True)
             (root / c["outfile"]).parent.joinpath("keep.license").write_text("x\n")  # not a covered file
@@ -103,7 +107,10 @@ def check(ctx, c):
             args += ["--creator-person", c["person"]]
         if c["org"]:
             args += ["--creator-organization", c["org"]]
-        if c["outfile"]:
+        elsewhere_out = c["outfile"][1:] if c["outfile"] and c["outfile"].startswith("@") else None
+        if elsewhere_out:
+            args += ["-o", elsewhere_out]
+        elif c["outfile"]:
             args += ["-o", c["outfile"] if c.get("cwd") != "outside" else str(root / c["outfile"])]
         run_cwd = root
         if c.get("cwd") == "outside":
@@ -117,7 +124,7 @@ def check(ctx, c):
         has_with = any(" WITH " in e["value"] for f in lint["files"] for e in f["spdx_expressions"])
         ctx.count({"state": state, "opts": {k: c[k] for k in ("concluded", "person", "org", "outfile", "mp", "cwd") if k in c}},
                   nontrivial=len(lint_files) >= 2 and (nexpr >= 2 or has_with) and c["concluded"],
-                  labels=[f"concluded:{c['concluded']}", f"creator:{bool(c['person'] or c['org'])}", f"outfile:{bool(c['outfile'])}", f"cwd:{c.get('cwd', 'root')}", f"pad:{c['pad'][1] if c['pad'] else None}",
+                  labels=[f"concluded:{c['concluded']}", f"creator:{bool(c['person'] or c['org'])}", f"outfile:{'elsewhere, named like a covered file' if elsewhere_out else bool(c['outfile'])}", f"cwd:{c.get('cwd', 'root')}", f"pad:{c['pad'][1] if c['pad'] else None}",
                           f"dup:{c['dup'] is not None}", f"max-expr-per-file:{min(nexpr, 3)}", f"with:{has_with}"],
                   sample={"files": sorted(lint_files), "options": args, "defects": state["defects"]})
         if res.crash is not None:
@@ -125,7 +132,7 @@ def check(ctx, c):
         if c["concluded"] and not c["person"] and not c["org"]:
             if res.code != 2:
                 ctx.fail(c, f"--add-license-concluded without a creator must be a usage error (exit 2): {res.brief()}")
-            if c["outfile"] and (root / c["outfile"]).exists():
+            if c["outfile"] and ((run_cwd / elsewhere_out) if elsewhere_out else (root / c["outfile"])).exists():
                 ctx.fail(c, "usage error, yet the output file was created")
             return
         if res.code != 0:
@@ -133,7 +140,7 @@ def check(ctx, c):
         if c["outfile"]:
             if res.out.strip():
                 ctx.fail(c, f"-o given but stdout has {res.out[:200]!r}")
-            doc = (root / c["outfile"]).read_text(encoding="utf-8")
+            doc = ((run_cwd / elsewhere_out) if elsewhere_out else (root / c["outfile"])).read_text(encoding="utf-8")
         else:
             doc = res.out
         try:
